@@ -9,7 +9,7 @@ from __future__ import annotations
 import ast
 
 from ..cfg import CFG, facts_at
-from ..core import AnalysisError, FuncNode, call_name, calls_in, kwarg, src
+from ..core import AnalysisError, FuncNode, last_attr, call_name, calls_in, kwarg, src
 
 EXPLANATION = (
     "C26.1 the merge_dicts([...]) sites list their operands from weakest to strongest: Job.get_context [parent context, call-time override] with the "
@@ -105,6 +105,23 @@ def run(ctx):
     gt = cm.func("get_context")
     ok = "scheduler.evaluate(parent_job.get_context(), parent_job=parent_job)" in src(gt) and "get_context_value(context, var_path, default)" in src(gt)
     r3.check(ok, f"{cm.rel}:get_context", "get_context does not evaluate the calling job's context and look up (path, default) in it", cm.rel, gt.lineno)
+
+    # the value handed back may be the caller's `default`, which scheduler tasks receive unevaluated: it has to pass through scheduler.evaluate
+    lookups = [c for c in ast.walk(gt) if isinstance(c, ast.Call) and call_name(c) == "get_context_value"]
+    if not lookups:
+        raise AnalysisError("get_context: get_context_value(...) call not found", "get_context")
+    for c in lookups:
+        par = cm.parent.get(c)
+        evaluated = isinstance(par, ast.Call) and last_attr(par) == "evaluate" and c in par.args
+        default_pre = any(isinstance(x, ast.Call) and last_attr(x) == "evaluate" and any(isinstance(a, ast.Name) and a.id == "default" for a in ast.walk(x)) for x in ast.walk(gt) if x is not par)
+        r3.check(
+            evaluated or default_pre,
+            f"{cm.rel}:get_context:default-evaluated",
+            "get_context returns get_context_value(context, path, default) as it is: scheduler tasks receive their arguments unevaluated, so a default that is a task call comes back as an "
+            "unevaluated expression instead of its value",
+            cm.rel,
+            c.lineno,
+        )
 
     r4 = ctx.rule("C26.4", "the override travels through the _context_override option; extend_run passes its context as the parent's override", floor=2)
     er = sm.func("Scheduler.extend_run")
